@@ -45,7 +45,7 @@ theorem decode_toplevel_of_spec_map (fs : Fields) (hty : tyOKM (.struct fs) = tr
     (hfl : fl.zigzag = false) (hne : noEmptyEntry (.struct fs) b = true)
     (h : Spec.Protobuf.decode (.struct fs) b = some v) :
     ∃ vs, v = .struct vs ∧
-      ∃ f, decode f (codecOf (.struct fs)) b (zeroOf (.struct fs)) fl = .ok (.struct vs, b.length) := by
+      ∃ f, decodeU f (codecOf (.struct fs)) b (zeroOf (.struct fs)) fl = .ok (.struct vs, b.length) := by
   obtain ⟨recs, vs, hp, hd, rfl⟩ := spec_decode_struct fs b v h
   have hseg := loop_agreeM _ fs { fl with toplevel := false } b recs _ vs hty hfl hp
     (noEmptyEntry_struct fs b recs hp hne) hd
@@ -61,7 +61,7 @@ string `b` that has no zero-length map entry: if the reference decoder accepts `
 accepts `b` and returns exactly `v` (maps included: same pairs, same order, same values). -/
 theorem unmarshal_of_decode_map_partial (fs : Fields) (hty : tyOKM (.struct fs) = true) (b : Bytes) (v : Val)
     (hne : noEmptyEntry (.struct fs) b = true)
-    (h : Spec.Protobuf.decode (.struct fs) b = some v) : unmarshal (.struct fs) b = .ok v := by
+    (h : Spec.Protobuf.decode (.struct fs) b = some v) : unmarshalU (.struct fs) b = .ok v := by
   by_cases hb : b = []
   · subst hb
     obtain ⟨recs, vs, hp, hd, rfl⟩ := spec_decode_struct fs [] v h
@@ -71,14 +71,14 @@ theorem unmarshal_of_decode_map_partial (fs : Fields) (hty : tyOKM (.struct fs) 
     subst hd
     have hty' := hty
     simp only [tyOKM, Bool.and_eq_true, decide_eq_true_eq] at hty'
-    simp only [unmarshal, List.isEmpty_nil, if_true, zeroOf, zeroFields_eqM fs 1 hty'.1]
+    simp only [unmarshalU, List.isEmpty_nil, if_true, zeroOf, zeroFields_eqM fs 1 hty'.1]
   · obtain ⟨vs, rfl, hf⟩ := decode_toplevel_of_spec_map fs hty b v { toplevel := true } rfl hne h
     exact unmarshal_ok (.struct fs) b (.struct vs) hb hf
 
 /-- the statement in the form of the task: agreement up to the harness's normal form (which sorts the maps) -/
 theorem unmarshal_decode_canonical_map_partial (fs : Fields) (hty : tyOKM (.struct fs) = true) (b : Bytes) (v : Val)
     (hne : noEmptyEntry (.struct fs) b = true) (h : Spec.Protobuf.decode (.struct fs) b = some v) :
-    ∃ v', unmarshal (.struct fs) b = .ok v' ∧ canonical (.struct fs) v' = canonical (.struct fs) v :=
+    ∃ v', unmarshalU (.struct fs) b = .ok v' ∧ canonical (.struct fs) v' = canonical (.struct fs) v :=
   ⟨v, unmarshal_of_decode_map_partial fs hty b v hne h, rfl⟩
 
 /-- any two inputs (without zero-length entries) that the reference reads as the same message are unmarshalled to
@@ -86,13 +86,13 @@ the same value -/
 theorem unmarshal_reencoding_map_partial (fs : Fields) (hty : tyOKM (.struct fs) = true) (b b' : Bytes) (v : Val)
     (hne : noEmptyEntry (.struct fs) b = true) (hne' : noEmptyEntry (.struct fs) b' = true)
     (h : Spec.Protobuf.decode (.struct fs) b = some v) (h' : Spec.Protobuf.decode (.struct fs) b' = some v) :
-    unmarshal (.struct fs) b = unmarshal (.struct fs) b' := by
+    unmarshalU (.struct fs) b = unmarshalU (.struct fs) b' := by
   rw [unmarshal_of_decode_map_partial fs hty b v hne h, unmarshal_of_decode_map_partial fs hty b' v hne' h']
 
 /-- an input without zero-length entries that `Unmarshal` rejects is rejected by the reference too -/
 theorem unmarshal_reject_map_partial (fs : Fields) (hty : tyOKM (.struct fs) = true) (b : Bytes) (e : String)
     (hne : noEmptyEntry (.struct fs) b = true)
-    (h : unmarshal (.struct fs) b = .err e) : Spec.Protobuf.decode (.struct fs) b = none := by
+    (h : unmarshalU (.struct fs) b = .err e) : Spec.Protobuf.decode (.struct fs) b = none := by
   cases hd : Spec.Protobuf.decode (.struct fs) b with
   | none => rfl
   | some v => rw [unmarshal_of_decode_map_partial fs hty b v hne hd] at h; cases h
@@ -102,7 +102,7 @@ zero-length entries (`b = []`: `ProtoLiberalFindings` L2) -/
 theorem unmarshal_of_decode_map_ptrmsg_partial (fs : Fields) (hty : tyOKM (.struct fs) = true) (b : Bytes) (v : Val)
     (hb : b ≠ []) (hne : noEmptyEntry (.ptr (.struct fs)) b = true)
     (h : Spec.Protobuf.decode (.ptr (.struct fs)) b = some v) :
-    unmarshal (.ptr (.struct fs)) b = .ok v := by
+    unmarshalU (.ptr (.struct fs)) b = .ok v := by
   have h' : Spec.Protobuf.decode (.struct fs) b = (Spec.Protobuf.decode (.ptr (.struct fs)) b).bind fun x =>
       match x with | .ptr y => some y | _ => none := by
     simp only [Spec.Protobuf.decode, Spec.Protobuf.deref, Option.bind_eq_bind, Option.pure_def]
